@@ -11,6 +11,7 @@ import (
 	"github.com/wollac/iota-crypto-demo/pkg/curl"
 	"pgregory.net/rapid"
 
+	"verifharness/fc"
 	"verifharness/h"
 	ref "verifharness/ref/curl"
 	"verifharness/ref/trit"
@@ -20,6 +21,7 @@ import (
 var childHook func(spec string)
 
 func TestMain(m *testing.M) {
+	h.FirstCallsChild(fc.Curl()) // never returns in a first-call child process
 	if spec := os.Getenv("VERIF_C20_CHILD"); spec != "" && childHook != nil {
 		childHook(spec) // never returns
 	}
@@ -181,3 +183,6 @@ func TestSpongeLevel(t *testing.T) {
 		Rule: "public-API part (no hook): 1..W lanes (W = bits per machine word of the build target) absorbed (1..3 blocks) and squeezed in 1..4 successive calls of 1..3 blocks through the build-selected permutation, from the instance and from clones taken before squeezing and between two calls, = scalar Curl-P-81 per lane; run on the default build, the purego build and the GOARCH=386 build (32-bit words), so hashes are independent of build target and tag; non-trivial = >= 2 distinct lanes; distinct by case",
 	})
 }
+
+// which public entry point is called first in a process (and by how many goroutines at once)
+func TestFirstCalls(t *testing.T) { h.FirstCallsSub(t, "C20", fc.Curl(), 6) }
